@@ -297,14 +297,14 @@ pub fn taylor(f: Fun, x0: R, d: usize) -> Option<Ser> {
             if x <= 0.0 {
                 return None;
             }
-            let y0 = R::leaf(x0, x.sqrt(), 0.5 / x.sqrt(), 0.5);
+            let y0 = R::leaf2(x0, x.sqrt(), 0.5 / x.sqrt(), 0.5 / (x * x.sqrt()), 0.5);
             pow_coeffs(x0, R::exact(0.5), y0, d)
         }
         Fun::Cbrt => {
             if x == 0.0 {
                 return None;
             }
-            let y0 = R::leaf(x0, x.cbrt(), x.cbrt() / (3.0 * x), LEAF);
+            let y0 = R::leaf2(x0, x.cbrt(), x.cbrt() / (3.0 * x), 0.5 * x.cbrt().abs() / (x * x), LEAF);
             pow_coeffs(x0, R::rounded(1.0 / 3.0), y0, d)
         }
         Fun::Exp => exp_ser(x0, d),
@@ -327,7 +327,7 @@ pub fn taylor(f: Fun, x0: R, d: usize) -> Option<Ser> {
             if x <= 0.0 {
                 return None;
             }
-            ln_coeffs(x0, R::leaf(x0, x.ln(), 1.0 / x, LEAF), d)
+            ln_coeffs(x0, R::leaf2(x0, x.ln(), 1.0 / x, 2.0 / (x * x), LEAF), d)
         }
         Fun::Log2 => {
             if x <= 0.0 {
@@ -338,7 +338,7 @@ pub fn taylor(f: Fun, x0: R, d: usize) -> Option<Ser> {
             for c in t.iter_mut() {
                 *c = *c / ln2;
             }
-            t[0] = R::leaf(x0, x.log2(), 1.0 / (x * std::f64::consts::LN_2), LEAF);
+            t[0] = R::leaf2(x0, x.log2(), 1.0 / (x * std::f64::consts::LN_2), 3.0 / (x * x), LEAF);
             t
         }
         Fun::Log10 => {
@@ -350,7 +350,7 @@ pub fn taylor(f: Fun, x0: R, d: usize) -> Option<Ser> {
             for c in t.iter_mut() {
                 *c = *c / ln10;
             }
-            t[0] = R::leaf(x0, x.log10(), 1.0 / (x * std::f64::consts::LN_10), LEAF);
+            t[0] = R::leaf2(x0, x.log10(), 1.0 / (x * std::f64::consts::LN_10), 1.0 / (x * x), LEAF);
             t
         }
         Fun::Ln1p => {
@@ -358,7 +358,7 @@ pub fn taylor(f: Fun, x0: R, d: usize) -> Option<Ser> {
                 return None;
             }
             let y0 = one + x0;
-            ln_coeffs(y0, R::leaf(x0, x.ln_1p(), 1.0 / (1.0 + x), LEAF), d)
+            ln_coeffs(y0, R::leaf2(x0, x.ln_1p(), 1.0 / (1.0 + x), 2.0 / ((1.0 + x) * (1.0 + x)), LEAF), d)
         }
         Fun::Sin => sin_ser(x0, d),
         Fun::Cos => cos_ser(x0, d),
@@ -379,7 +379,7 @@ pub fn taylor(f: Fun, x0: R, d: usize) -> Option<Ser> {
             }
             let u = quad(x0, 1.0, -1.0, d);
             let s0 = u[0].v.sqrt();
-            let w0 = R::leaf(u[0], 1.0 / s0, 0.5 / (s0 * u[0].v), 1.5);
+            let w0 = R::leaf2(u[0], 1.0 / s0, 0.5 / (s0 * u[0].v), 1.5 / (s0 * u[0].v * u[0].v), 1.5);
             let w = s_pow(&u, R::exact(-0.5), w0);
             if f == Fun::Asin {
                 s_int(&w, R::leaf(x0, x.asin(), w0.v, LEAF))
@@ -390,7 +390,7 @@ pub fn taylor(f: Fun, x0: R, d: usize) -> Option<Ser> {
         Fun::Atan => {
             let u = quad(x0, 1.0, 1.0, d);
             let w = s_pow(&u, R::exact(-1.0), one / u[0]);
-            s_int(&w, R::leaf(x0, x.atan(), 1.0 / (1.0 + x * x), LEAF))
+            s_int(&w, R::leaf2(x0, x.atan(), 1.0 / (1.0 + x * x), 2.0 / (1.0 + x * x), LEAF))
         }
         Fun::Sinh => sinh_ser(x0, d),
         Fun::Cosh => cosh_ser(x0, d),
@@ -428,9 +428,9 @@ pub fn taylor(f: Fun, x0: R, d: usize) -> Option<Ser> {
         Fun::Asinh => {
             let u = quad(x0, 1.0, 1.0, d);
             let s0 = u[0].v.sqrt();
-            let w0 = R::leaf(u[0], 1.0 / s0, 0.5 / (s0 * u[0].v), 1.5);
+            let w0 = R::leaf2(u[0], 1.0 / s0, 0.5 / (s0 * u[0].v), 1.5 / (s0 * u[0].v * u[0].v), 1.5);
             let w = s_pow(&u, R::exact(-0.5), w0);
-            s_int(&w, R::leaf(x0, x.asinh(), w0.v, LEAF))
+            s_int(&w, R::leaf2(x0, x.asinh(), w0.v, 2.0 / (1.0 + x * x), LEAF))
         }
         Fun::Acosh => {
             if x <= 1.0 {
@@ -438,9 +438,9 @@ pub fn taylor(f: Fun, x0: R, d: usize) -> Option<Ser> {
             }
             let u = quad(x0, -1.0, 1.0, d);
             let s0 = u[0].v.sqrt();
-            let w0 = R::leaf(u[0], 1.0 / s0, 0.5 / (s0 * u[0].v), 1.5);
+            let w0 = R::leaf2(u[0], 1.0 / s0, 0.5 / (s0 * u[0].v), 1.5 / (s0 * u[0].v * u[0].v), 1.5);
             let w = s_pow(&u, R::exact(-0.5), w0);
-            s_int(&w, R::leaf(x0, x.acosh(), w0.v, LEAF))
+            s_int(&w, R::leaf2(x0, x.acosh(), w0.v, 2.0 * x / ((x * x - 1.0) * (x * x - 1.0).sqrt()), LEAF))
         }
         Fun::Atanh => {
             if x.abs() >= 1.0 {
